@@ -126,6 +126,15 @@ class SimWriter:
             if not f.done():
                 f.set_result(None)
 
+    def fail(self, exc):
+        """Transport fault while senders wait in drain(): every waiter (FIFO) and every later drain() gets exc."""
+        self.drain_exc = exc
+        self.paused = False
+        ws, self.drain_waiters = self.drain_waiters, []
+        for f in ws:
+            if not f.done():
+                f.set_exception(exc)
+
     def close(self):
         if not self.closed:
             self.closed = True
